@@ -309,9 +309,16 @@ func (e *Enc) binop(fr *Frame, x *ssa.BinOp, reach Term, pos string) Term {
 		}
 	case SIface:
 		switch x.Op {
-		case token.EQL:
-			return e.ifaceEq(a, b)
-		case token.NEQ:
+		case token.EQL, token.NEQ:
+			// Go panics when two interface values of the same uncomparable dynamic type (slice, map, func, or a
+			// struct holding one) are compared
+			if !isNilConst(x.X) && !isNilConst(x.Y) && !comparableBoxed(x.X) && !comparableBoxed(x.Y) {
+				e.usesUncomparable = true
+				e.safe(fr, "comparable", reach, T(SBool, "(not (and (= (tag %s) (tag %s)) (uncomparable_tag (tag %s))))", a.S, b.S, a.S), pos)
+			}
+			if x.Op == token.EQL {
+				return e.ifaceEq(a, b)
+			}
 			return not(e.ifaceEq(a, b))
 		}
 	default:
@@ -329,6 +336,19 @@ func (e *Enc) binop(fr *Frame, x *ssa.BinOp, reach Term, pos string) Term {
 // interface equality: identical boxes are equal; the solver's = on Iface is value equality of (tag, payload) because
 // box_T is a function of the payload.  Comparable payloads (ints, strings, bools, pointers) box injectively.
 func (e *Enc) ifaceEq(a, b Term) Term { return eq(a, b) }
+
+func isNilConst(v ssa.Value) bool {
+	c, ok := v.(*ssa.Const)
+	return ok && c.Value == nil
+}
+
+// comparableBoxed: an interface value made on the spot from a value of a comparable static type
+func comparableBoxed(v ssa.Value) bool {
+	if mi, ok := v.(*ssa.MakeInterface); ok {
+		return types.Comparable(mi.X.Type())
+	}
+	return false
+}
 
 func (e *Enc) bitop(name string, a, b Term, t types.Type) Term {
 	r := e.def(name, T(SInt, "(%s %s %s)", name, a.S, b.S))
